@@ -218,6 +218,47 @@ pub fn run(ctx: &Ctx) -> Report {
             }
         }
     }
+    // partial calls with windows whose width is not a multiple of 8 (narrower than one byte included), with the
+    // floor-sized buffer the drivers document: whatever a driver does with such a window, every command it sends
+    // must be defined and every block complete (where the window lands is C06's matter and not judged here)
+    for spec in panels_for(ctx) {
+        for pe in spec.partial {
+            if pe.two_planes {
+                continue;
+            }
+            for w in [Win::new(8, 8, 4, 4), Win::new(8, 8, 12, 4), Win::new(0, 0, 20, 3), Win::new(16, 2, 7, 1)] {
+                rep.eval(spec.name);
+                let mut rig = Rig::simple(spec);
+                let mut ops: Vec<Op> = Vec::new();
+                if let Some(k) = pe.after {
+                    ops.push(Op::win(k, w, Img::Coded { salt: 0x18A, len: w.bytes() }));
+                }
+                if ops.iter().any(|o| !rig.apply(o).is_ok()) {
+                    rep.count("unaligned_windows_not_accepted", 1);
+                    continue;
+                }
+                let op = Op::win(pe.k, w, if pe.is_fill { Img::None } else { Img::Coded { salt: 0x18B, len: w.bytes() } });
+                let c0 = rig.board.borrow().chip().cmds.len();
+                if !rig.apply(&op).is_ok() {
+                    rep.count("unaligned_windows_not_accepted", 1);
+                    continue;
+                }
+                ops.push(op);
+                let b = rig.board.borrow();
+                let cmds = &b.chip().cmds[c0..];
+                rep.count("commands_decoded", cmds.len() as u64);
+                rep.count("unaligned_window_calls_checked", 1);
+                rep.nontrivial(hash_str(&format!("{}|unaligned|{}|{:?}", spec.name, pe.k.name(), (w.x, w.y, w.w, w.h))));
+                for (class, mut tags, detail) in check_cmds(spec, cmds, Some(pe.k)) {
+                    if class == "geometry" {
+                        continue;
+                    }
+                    tags.push("unaligned-width".into());
+                    rep.fail(Failure { panel: spec.name.into(), entry: pe.k.name().into(), class, tags, detail: format!("{} (window {},{} {}x{})", detail, w.x, w.y, w.w, w.h), case: case_json(spec, &ctx.variant, &ops) });
+                }
+            }
+        }
+    }
     if ctx.variant == "v3" && ctx.only_panel.as_deref().map(|p| p == "epd12in48b_v2").unwrap_or(true) {
         crate::props::p12checks::c18(&mut rep);
     }
